@@ -768,7 +768,36 @@ func c14SendJoin(c *mon.Ctx, r *gen.Rand, sc *simScenario) {
 						c.Failf(fmt.Sprintf("sendjoin:accepts-join:own=%v:state=%v", byOwn, byState), "CheckSendJoinResponse accepts a join of %s that is allowed by its own auth events: %v, by the returned state: %v (response: %s)", user, byOwn, byState, label)
 					}
 					if err == nil && out != nil && len(out.GetStateEvents()) != len(state) {
-						c.Failf("sendjoin:state-not-returned", "accepted send_join returns %d state events of %d", len(out.GetStateEvents()), len(state))
+						got := map[string]bool{}
+						for _, ej := range out.GetStateEvents() {
+							if q, err := s.impl.NewEventFromTrustedJSON(ej, false); err == nil {
+								got[q.EventID()] = true
+							}
+						}
+						// what is not returned has failed a check: here that can only be a copy with a broken hash (the redacted
+						// form of the event) that its own auth events no longer allow
+						missing := []string{}
+						for _, p := range state {
+							if got[p.EventID()] {
+								continue
+							}
+							var pown []gmsl.PDU
+							for _, a := range p.AuthEventIDs() {
+								if q, ok := inResp[a]; ok {
+									pown = append(pown, q)
+								} else if q, ok := s.all[a]; ok {
+									pown = append(pown, q)
+								}
+							}
+							if p.Redacted() && !allowedBy(p, pown) {
+								c.Count("send_join_redacted_copy_dropped_as_not_allowed")
+								continue
+							}
+							missing = append(missing, fmt.Sprintf("%s %s[%s] (redacted copy: %v)", p.EventID(), p.Type(), *p.StateKey(), p.Redacted()))
+						}
+						if len(missing) > 0 {
+							c.Failf("sendjoin:state-not-returned", "accepted send_join returns %d state events of %d (response: %s); not returned although they pass both checks: %v", len(out.GetStateEvents()), len(state), label, missing)
+						}
 					}
 				})
 			}
